@@ -200,7 +200,7 @@ func genC11Dec(x *Ctx) {
 		}
 	}
 	// random stream
-	for i, n := 0, x.N(1500, 100000); i < n; i++ {
+	for i, n := 0, x.N(4000, 100000); i < n; i++ {
 		vp8DecCase(x, func(c *Case) (vp8Desc, []byte) {
 			r := c.R
 			d := vp8Desc{N: r.Bool(), S: r.Bool(), PID: r.Intn(8), X: r.Chance(4, 5), I: r.Bool(), M: r.Bool(),
@@ -329,7 +329,7 @@ func genC11Rt(x *Ctx) {
 			}
 		}
 	}
-	for i, n := 0, x.N(3000, 150000); i < n; i++ {
+	for i, n := 0, x.N(10000, 150000); i < n; i++ {
 		vp8RtCase(x, func(c *Case) (bool, int, []PayCall) {
 			r := c.R
 			enable := r.Chance(3, 4)
@@ -436,7 +436,7 @@ func genC08Vp8(x *Ctx) {
 			})
 		}
 	}
-	for i, n := 0, x.N(2500, 150000); i < n; i++ {
+	for i, n := 0, x.N(8000, 150000); i < n; i++ {
 		one(func(c *Case) (bool, []PayCall) {
 			r := c.R
 			enable := r.Bool()
@@ -511,7 +511,7 @@ func genC09Vp8(x *Ctx) {
 		full := []byte{0xFF, 0xFF, 0xFF, 0xFF, 0xFF, 0xFF, 0xAA}
 		return [][]byte{full, {0x00, 0x01}, full, {0x80, 0x00, 0x02}, full, {0x80}, {0x80, 0x80}, {0x80, 0x80, 0x80}, full, nil, {}, {0x10}}
 	})
-	for i, n := 0, x.N(2500, 150000); i < n; i++ {
+	for i, n := 0, x.N(8000, 150000); i < n; i++ {
 		seq(func(c *Case) [][]byte {
 			r := c.R
 			var ps [][]byte
